@@ -219,6 +219,11 @@ func WorkerMain(t *testing.T, engine, family string, c Case) {
 			if r.Violation != nil && v.Prop == r.Violation.Prop && v.Sig == r.Violation.Sig {
 				reproduced = true
 			}
+			// lax replays (C09: map order inside dependencies, C18: runtime interleaving): any violation of
+			// the same property counts, e.g. another racing pair of the same defect
+			if Cfg("VERIF_REPLAY_LAX") != "" && r.Violation != nil && v.Prop == r.Violation.Prop {
+				reproduced = true
+			}
 		}
 		// the rendered case must be identical, otherwise the replay diverged
 		want, _ := json.Marshal(dropSchedule(r.Rendered))
